@@ -3745,13 +3745,15 @@ impl<'source> Parser<'source> {
             },
             'u' => match chars.next() {
                 Some('{') => {
-                    let mut code = 0;
+                    let mut code = 0_u32;
 
                     while let Some(c) = chars.peek().cloned() {
                         if c.is_ascii_hexdigit() {
                             chars.next();
-                            code *= 16;
-                            code += c.to_digit(16).unwrap();
+                            // Saturate rather than overflow, out of range codes are rejected below
+                            code = code
+                                .saturating_mul(16)
+                                .saturating_add(c.to_digit(16).unwrap());
                         } else {
                             break;
                         }
